@@ -51,16 +51,18 @@ def make_ics(idx, feats):
         ev += fold("DESCRIPTION:" + "long text " * 14)
     if "quoted-param" in f:
         ev.append('ATTENDEE;CN="Doe, Jo";ROLE=REQ-PARTICIPANT:mailto:jo@example.com')
+        # the same property on a second line, sorting BEFORE the first one (the order of repeated properties is the client's)
+        ev.append("ATTENDEE;CN=Al:mailto:al@example.com")
     if "non-ascii" in f:
         ev.append("LOCATION:Zürich 日本")
     if "rrule-exdate" in f:
         ev.append("RRULE:FREQ=WEEKLY;COUNT=5")
         if "date" in f:
-            ev.append("EXDATE;VALUE=DATE:20200117")
+            ev += ["EXDATE;VALUE=DATE:20200124", "EXDATE;VALUE=DATE:20200117"]
         elif "vtimezone" in f:
-            ev.append("EXDATE;TZID=Europe/Paris:20200117T100000")
+            ev += ["EXDATE;TZID=Europe/Paris:20200131T100000", "EXDATE;TZID=Europe/Paris:20200117T100000"]
         else:
-            ev.append("EXDATE:20200117T100000Z")
+            ev += ["EXDATE:20200131T100000Z", "EXDATE:20200117T100000Z"]
     if "valarm" in f:
         ev += ["BEGIN:VALARM", "ACTION:DISPLAY", "DESCRIPTION:ring", "TRIGGER:-PT15M", "END:VALARM"]
     ev.append("END:VEVENT")
